@@ -13,6 +13,8 @@ from .. import common, typecases
 from ..common import ToolError
 from . import c05
 
+from .. import compose
+
 NEEDS = ["driver"]
 DEFAULT_ATTRS = {
     "absent": None,
@@ -118,9 +120,12 @@ def run(chk):
                          f"{lang} {pos}: `{typecases.rust_text(tree)}` with {da}: optional={e['optional']} ty={e['ty']} (required optional={req})",
                          {"tree": tree, "default_attr": da, "bare": e["default"], "lang": lang, "pos": pos, "config": cname}, f"optional={req}", f"optional={e['optional']} ty={e['ty']}")
     chk.extra["trace_events"] = len(idx)
+    compose.run(chk, "optional")
 
 
 def replay(chk, rec):
+    if "compose" in rec.get("case", {}):
+        return compose.replay(chk, rec, "optional")
     c = rec["case"]
     events, meta = typecases.run_trees(chk, [(c["tree"], c["default_attr"], c["bare"])], configs=(c.get("config", "base"),))
     keep = [(e, m) for e, m in zip(events, meta) if m[0] == c["lang"] and m[2] == c["pos"] and e is not None]
